@@ -8,19 +8,13 @@ Definition has_rel (p : pattern) : bool := match p_hops p with [] => false | _ =
 Definition crosspattern_clause (c : clause) : bool :=
   match c with CMatch _ ps _ => Nat.leb 2 (length (filter has_rel ps)) | _ => false end.
 
-(* K-C11-distinct-window: a WITH/RETURN with DISTINCT together with SKIP or LIMIT *)
-Definition windowed_distinct (p : proj) : bool :=
-  pj_distinct p && (match pj_skip p with Some _ => true | None => false end || match pj_limit p with Some _ => true | None => false end).
-Definition distinct_window_clause (c : clause) : bool :=
-  match c with CWith p _ | CReturn p | CAgg _ _ p _ => windowed_distinct p | _ => false end.
-
 (* K-C11-parallel: a pattern chain with two or more hops on a graph that has a relationship key of multiplicity >= 2 *)
 Definition has_parallel (g : graph) : bool := existsb (fun e => Nat.leb 2 (multiplicity g e)) (g_rels g).
 Definition parallel_clause (g : graph) (c : clause) : bool :=
   match c with CMatch _ ps _ => has_parallel g && existsb (fun p => Nat.leb 2 (length (p_hops p))) ps | _ => false end.
 
 Definition known_clause (g : graph) (c : clause) : bool :=
-  crosspattern_clause c || distinct_window_clause c || parallel_clause g c.
+  crosspattern_clause c || parallel_clause g c.
 Fixpoint in_known_class (g : graph) (q : query) : bool :=
   match q with
   | QSingle cs => existsb (known_clause g) cs
